@@ -1,12 +1,321 @@
-//! C10 — ops evaluated on the real code and the generator of their inputs.
-#![allow(unused_imports, dead_code, clippy::all)]
+//! C10 — `Johnson75::circuits` on the real code.
+//!
+//!   johnson_circuits <family> [am verts arcs]   =>  [[circuit] ...] | panic
+//!
+//! `<family>` is a label of the generator family (ignored by `eval`, histogrammed by the driver).
+//! Only contiguous vertex sets `0..n` are generated (the property's scope).
+#![allow(clippy::all)]
 
 use crate::graphs::{self, Desc};
 use crate::rng::Rng;
 use crate::value::V;
+use graaf::Johnson75;
+use std::collections::BTreeSet;
 
-pub fn eval(_op: &str, _args: &[V]) -> Option<Vec<V>> {
-    None
+pub fn eval(op: &str, args: &[V]) -> Option<Vec<V>> {
+    match op {
+        "johnson_circuits" => {
+            let [_fam, desc] = args else { return None };
+            let desc = Desc::parse(desc)?;
+            if desc.repr != "am" {
+                return None;
+            }
+            let d = desc.build_am();
+            let cs = Johnson75::new(&d).circuits();
+            Some(vec![V::L(cs.into_iter().map(V::us).collect())])
+        }
+        _ => None,
+    }
 }
 
-pub fn gen(_rng: &mut Rng, _thorough: bool, _emit: &mut dyn FnMut(String)) {}
+// ------------------------------------------------------------------------------ generator
+
+/// Naive circuit counter (capped) — only used to keep generated cases small; it is NOT an
+/// oracle (the oracle is the verified Lean enumerator).
+fn count_circuits(n: usize, arcs: &[(usize, usize)], cap: usize) -> usize {
+    let mut out = vec![Vec::new(); n];
+    for &(u, v) in arcs {
+        out[u].push(v);
+    }
+    fn go(out: &[Vec<usize>], s: usize, v: usize, on: &mut Vec<bool>, cnt: &mut usize, cap: usize) {
+        for &w in &out[v] {
+            if *cnt > cap {
+                return;
+            }
+            if w == s {
+                *cnt += 1;
+            } else if w > s && !on[w] {
+                on[w] = true;
+                go(out, s, w, on, cnt, cap);
+                on[w] = false;
+            }
+        }
+    }
+    let mut cnt = 0;
+    for s in 0..n {
+        let mut on = vec![false; n];
+        on[s] = true;
+        go(&out, s, s, &mut on, &mut cnt, cap);
+        if cnt > cap {
+            break;
+        }
+    }
+    cnt
+}
+
+/// Drop random arcs until the digraph has at most `cap` circuits.
+fn cap_circuits(rng: &mut Rng, n: usize, arcs: &mut Vec<(usize, usize)>, cap: usize) {
+    while count_circuits(n, arcs, cap) > cap {
+        let drop = (arcs.len() / 6).max(1);
+        for _ in 0..drop {
+            if arcs.is_empty() {
+                break;
+            }
+            let i = rng.below(arcs.len());
+            let _ = arcs.swap_remove(i);
+        }
+    }
+}
+
+fn line(fam: &str, n: usize, arcs: &[(usize, usize)]) -> String {
+    let d = Desc { repr: "am".to_string(), verts: (0..n).collect(), arcs: arcs.to_vec(), weights: vec![1; arcs.len()] };
+    format!("johnson_circuits {fam} {}", d.to_v())
+}
+
+fn dedup(arcs: Vec<(usize, usize)>) -> Vec<(usize, usize)> {
+    let set: BTreeSet<(usize, usize)> = arcs.into_iter().filter(|&(u, v)| u != v).collect();
+    set.into_iter().collect()
+}
+
+/// Families aimed at the blocked / B-list bookkeeping.
+fn special(rng: &mut Rng, n: usize) -> (&'static str, Vec<(usize, usize)>) {
+    let mut arcs: Vec<(usize, usize)> = Vec::new();
+    let name: &'static str;
+    // a random relabelling so that "explored first" (= smaller id) varies
+    let mut lab: Vec<usize> = (0..n).collect();
+    rng.shuffle(&mut lab);
+    match rng.below(8) {
+        0 => {
+            // dead end explored before the closing branch: a spine cycle, plus trap vertices
+            // whose only ways out lead back into the spine (= vertices that are on the stack)
+            name = "trap-then-close";
+            let k = (2 + rng.below(n.max(3) - 1)).min(n);
+            for i in 0..k {
+                arcs.push((lab[i], lab[(i + 1) % k]));
+            }
+            for t in k..n {
+                // entered from the spine (or an earlier trap), leaves only to spine vertices
+                let from = lab[rng.below(t)];
+                arcs.push((from, lab[t]));
+                for _ in 0..(1 + rng.below(2)) {
+                    arcs.push((lab[t], lab[rng.below(k)]));
+                }
+                if rng.chance(1, 3) {
+                    arcs.push((lab[t], lab[rng.below(t)]));
+                }
+            }
+            for _ in 0..rng.below(3) {
+                arcs.push((lab[rng.below(k)], lab[rng.below(k)]));
+            }
+        }
+        1 => {
+            // nested / overlapping cycles: one long cycle with chords
+            name = "cycle-chords";
+            for i in 0..n {
+                arcs.push((lab[i], lab[(i + 1) % n]));
+            }
+            for _ in 0..(1 + rng.below(n + 1)) {
+                arcs.push((lab[rng.below(n)], lab[rng.below(n)]));
+            }
+        }
+        2 => {
+            // theta: several internally disjoint paths from a to b and one path back
+            name = "theta";
+            if n >= 3 {
+                let (a, b) = (lab[0], lab[1]);
+                let mut next = 2;
+                let paths = 2 + rng.below(3);
+                for _ in 0..paths {
+                    let len = rng.below(3);
+                    let mut prev = a;
+                    for _ in 0..len {
+                        if next >= n {
+                            break;
+                        }
+                        arcs.push((prev, lab[next]));
+                        prev = lab[next];
+                        next += 1;
+                    }
+                    arcs.push((prev, b));
+                }
+                let mut prev = b;
+                while next < n {
+                    arcs.push((prev, lab[next]));
+                    prev = lab[next];
+                    next += 1;
+                    if rng.chance(1, 3) {
+                        arcs.push((prev, lab[rng.below(next)]));
+                    }
+                }
+                arcs.push((prev, a));
+            }
+        }
+        3 => {
+            // cycles sharing one vertex (figure eight, flowers)
+            name = "flower";
+            let hub = lab[0];
+            let mut next = 1;
+            while next < n {
+                let len = (1 + rng.below(3)).min(n - next);
+                let mut prev = hub;
+                for _ in 0..len {
+                    arcs.push((prev, lab[next]));
+                    prev = lab[next];
+                    next += 1;
+                }
+                arcs.push((prev, hub));
+                if rng.chance(1, 3) && next > 2 {
+                    arcs.push((lab[1 + rng.below(next - 1)], lab[1 + rng.below(next - 1)]));
+                }
+            }
+        }
+        4 => {
+            // bidirected path / cycle / tree: many 2-circuits, long back-tracking
+            name = "bidirected";
+            for i in 1..n {
+                let p = if rng.chance(1, 2) { i - 1 } else { rng.below(i) };
+                arcs.push((lab[p], lab[i]));
+                arcs.push((lab[i], lab[p]));
+            }
+            if n >= 3 && rng.chance(1, 2) {
+                arcs.push((lab[n - 1], lab[0]));
+                if rng.chance(1, 2) {
+                    arcs.push((lab[0], lab[n - 1]));
+                }
+            }
+        }
+        5 => {
+            // two strongly connected blocks joined one way, plus a tail that never closes
+            name = "two-blocks";
+            let k = n / 2;
+            for i in 0..k {
+                arcs.push((lab[i], lab[(i + 1) % k.max(1)]));
+            }
+            for i in k..n {
+                arcs.push((lab[i], lab[if i + 1 < n { i + 1 } else { k }]));
+            }
+            if k >= 1 && k < n {
+                arcs.push((lab[rng.below(k)], lab[k + rng.below(n - k)]));
+                if rng.chance(1, 2) {
+                    arcs.push((lab[rng.below(k)], lab[k + rng.below(n - k)]));
+                }
+            }
+            for _ in 0..rng.below(4) {
+                let (a, b) = (rng.below(n), rng.below(n));
+                if (a < k) == (b < k) || a < k {
+                    arcs.push((lab[a], lab[b]));
+                }
+            }
+        }
+        6 => {
+            // Johnson's own worst-case shape: k parallel 2-step detours in a row and a return arc
+            name = "ladder";
+            let mut prev = vec![lab[0]];
+            let mut next = 1;
+            while next < n {
+                let w = (1 + rng.below(3)).min(n - next);
+                let layer: Vec<usize> = (0..w).map(|j| lab[next + j]).collect();
+                for &p in &prev {
+                    for &q in &layer {
+                        if rng.chance(4, 5) {
+                            arcs.push((p, q));
+                        }
+                    }
+                }
+                next += w;
+                prev = layer;
+            }
+            for &p in &prev {
+                arcs.push((p, lab[0]));
+            }
+            for _ in 0..rng.below(3) {
+                arcs.push((lab[rng.below(n)], lab[rng.below(n)]));
+            }
+        }
+        _ => {
+            // sparse random with a guaranteed spanning cycle in id order: every s has work to do
+            name = "sparse-hamiltonian";
+            for i in 0..n {
+                arcs.push((i, (i + 1) % n));
+            }
+            for _ in 0..(n / 2 + rng.below(n + 1)) {
+                arcs.push((rng.below(n), rng.below(n)));
+            }
+        }
+    }
+    (name, dedup(arcs))
+}
+
+pub fn gen(rng: &mut Rng, thorough: bool, emit: &mut dyn FnMut(String)) {
+    let cap = if thorough { 3000 } else { 1200 };
+
+    // (1) exhaustive small scopes
+    let exhaustive_n: &[usize] = if thorough { &[1, 2, 3, 4] } else { &[1, 2, 3] };
+    for &n in exhaustive_n {
+        let pairs: Vec<(usize, usize)> =
+            (0..n).flat_map(|u| (0..n).filter(move |&v| v != u).map(move |v| (u, v))).collect();
+        for code in 0u32..(1u32 << pairs.len()) {
+            let arcs: Vec<(usize, usize)> =
+                pairs.iter().enumerate().filter(|(i, _)| code >> i & 1 == 1).map(|(_, &p)| p).collect();
+            emit(line(&format!("all{n}"), n, &arcs));
+        }
+    }
+    if !thorough {
+        // a sample of the 4096 digraphs on 4 vertices
+        let n = 4;
+        let pairs: Vec<(usize, usize)> =
+            (0..n).flat_map(|u| (0..n).filter(move |&v| v != u).map(move |v| (u, v))).collect();
+        for _ in 0..300 {
+            let code = rng.below(1 << pairs.len()) as u32;
+            let arcs: Vec<(usize, usize)> =
+                pairs.iter().enumerate().filter(|(i, _)| code >> i & 1 == 1).map(|(_, &p)| p).collect();
+            emit(line("all4", n, &arcs));
+        }
+    }
+    // all tournaments on 5 vertices (thorough), a sample of them (quick)
+    {
+        let n = 5;
+        let pairs: Vec<(usize, usize)> = (0..n).flat_map(|u| ((u + 1)..n).map(move |v| (u, v))).collect();
+        let total = 1u32 << pairs.len();
+        let codes: Vec<u32> = if thorough { (0..total).collect() } else { (0..120).map(|_| rng.below(total as usize) as u32).collect() };
+        for code in codes {
+            let arcs: Vec<(usize, usize)> =
+                pairs.iter().enumerate().map(|(i, &(u, v))| if code >> i & 1 == 1 { (u, v) } else { (v, u) }).collect();
+            emit(line("tournament5", n, &arcs));
+        }
+    }
+    // complete digraphs K_1..K_5 (K_6 in the thorough tier)
+    for n in 1..=(if thorough { 6 } else { 5 }) {
+        let arcs: Vec<(usize, usize)> = (0..n).flat_map(|u| (0..n).filter(move |&v| v != u).map(move |v| (u, v))).collect();
+        emit(line("complete", n, &arcs));
+    }
+
+    // (2) special families (blocked / B-list machinery), orders 3..14
+    let n_special = if thorough { 6000 } else { 700 };
+    for _ in 0..n_special {
+        let n = if rng.chance(2, 3) { 3 + rng.below(7) } else { 10 + rng.below(5) };
+        let (name, mut arcs) = special(rng, n);
+        cap_circuits(rng, n, &mut arcs, cap);
+        rng.shuffle(&mut arcs);
+        emit(line(name, n, &arcs));
+    }
+
+    // (3) the shared families: dense up to 9 vertices, sparse up to 14
+    let n_shared = if thorough { 6000 } else { 500 };
+    for _ in 0..n_shared {
+        let n = if rng.chance(3, 4) { 1 + rng.below(9) } else { 10 + rng.below(5) };
+        let (name, mut arcs) = graphs::gen_arcs(rng, n);
+        cap_circuits(rng, n, &mut arcs, cap);
+        emit(line(name, n, &arcs));
+    }
+}
